@@ -38,7 +38,15 @@ def run(tier, seed):
     rng = random.Random(seed * 31 + 15)
     progs = []
     while len(progs) < n:
-        if len(progs) % 4 == 3:
+        directed_cum = len(progs) % 5 == 2
+        if directed_cum:
+            # a span that starts before time 0 and a cumulative output counted from time 0; no explicit time dependence
+            p = g.program({"requests": True, "state_rates": False, "nsteps": g.rng.choice([3, 4]), "no_time": True,
+                           "nstrat": g.rng.choice([0, 1, 2]), "p_post": 0.0, "h": g.rng.choice(["1/2", "1"]), "t0": g.rng.choice(["-1", "-2"])})
+            srcs_ = [o["name"] for o in p["ops"] if o["op"] == "req" and o["req"]["type"] in ("flow", "comp")]
+            if srcs_ and not any(o["op"] == "whitelist" for o in p["ops"]):
+                p["ops"].append({"op": "req", "name": "c0", "save": True, "req": {"type": "cum", "source": srcs_[0], "start": "0"}})
+        elif len(progs) % 4 == 3:
             # several stratifications with mixing matrices (of different sizes): category order vs Kronecker order
             p = g.program({"requests": False, "state_rates": False, "nsteps": 2, "nonlinear": True, "p_mix": 1.0,
                            "nstrat": g.rng.choice([2, 3]), "p_post": 0.0, "h": g.rng.choice(["1/4", "1/2"])})
@@ -48,6 +56,15 @@ def run(tier, seed):
         if any(o["op"] in ("rebalance", "arraypop", "cv") for o in p["ops"]) or \
                 any(o["op"] == "req" and o["req"]["type"] == "cv" for o in p["ops"]):
             continue
+        # cumulative outputs that start at a model time (time 0 in particular, when the span starts before it)
+        t0_, h_ = gen.Fraction(p["times"][0]), gen.Fraction(p["times"][2])
+        k0_ = (-t0_) / h_
+        for o in p["ops"]:
+            if o["op"] == "req" and o["req"]["type"] == "cum" and o["req"].get("start") is None and g.rng.random() < 0.7:
+                if t0_ < 0 and k0_.denominator == 1 and k0_ <= nsteps(p) and g.rng.random() < 0.8:
+                    o["req"]["start"] = "0"
+                else:
+                    o["req"]["start"] = str(t0_ + g.rng.randint(0, int(nsteps(p))) * h_)
         base = checklib.strip_meta(dict(p, obs=[]))
         variants = []
         variants.append(["flow order", TR.permute_flows(base, rng)])
